@@ -194,10 +194,10 @@ where
             .unwrap_or_else(|| Box::new(StdRng::from_os_rng()));
 
         // Main Loop
-        loop {
+        let result = loop {
             // 1. Check for timeout
             if start_time.elapsed() > timeout {
-                return Err(PlanningError::Timeout);
+                break Err(PlanningError::Timeout);
             }
 
             // 2. Sample a state (q_rand)
@@ -299,8 +299,12 @@ where
             // 9. Check if the new node satisfies the goal
             if goal.is_satisfied(&q_new) {
                 println!("Solution found after {} nodes.", self.tree.len());
-                return Ok(self.reconstruct_path(self.tree.len() - 1));
+                break Ok(self.reconstruct_path(self.tree.len() - 1));
             }
-        }
+        };
+
+        // Hand the generator back so that later calls continue the same (seeded) stream.
+        self.rng = Some(rng);
+        result
     }
 }
